@@ -206,9 +206,17 @@ ReturnClauses(s, e, b) ==
 (* the device model behind C10: acknowledged create frames are stored and a  *)
 (* reply with src = "device" must list exactly what is stored                *)
 NoAsk == [known |-> FALSE, start |-> <<>>, end |-> <<>>, days |-> {}]
+\* the device keeps its schedules in slots 0..7: a create frame takes the lowest free slot, a delete frame empties the slot it
+\* names, a listing shows the occupied slots in slot order.  sl: the occupied slots in slot order, [id, bytes, ask]
+SlotIds(sl) == {sl[k].id : k \in 1..Len(sl)}
+FreeId(sl) == CHOOSE q \in 0..Len(sl) : q \notin SlotIds(sl) /\ \A j \in 0..(q - 1) : j \in SlotIds(sl)
 StoreIfCreate(sl, b, asked) ==
   LET d == DecodeFrame(b) IN
-  IF d.kind = "createschedule" THEN Append(sl, [bytes |-> <<d.mask>> \o d.start \o d.end, ask |-> asked]) ELSE sl
+  IF d.kind = "createschedule"
+  THEN LET new == [id |-> FreeId(sl), bytes |-> <<d.mask>> \o d.start \o d.end, ask |-> asked] IN
+       SelectSeq(sl, LAMBDA x : x.id < new.id) \o <<new>> \o SelectSeq(sl, LAMBDA x : x.id > new.id)
+  ELSE IF d.kind = "delschedule" THEN SelectSeq(sl, LAMBDA x : x.id # d.slot)
+  ELSE sl
 \* what the caller of create_schedule asked for (only for accepted, strictly spelled arguments)
 AskOf(s, a) == IF s.op = "create_schedule" /\ s.arg = "ok"
                THEN [known |-> TRUE, start |-> a.start, end |-> a.end, days |-> SeqToSet(a.days)] ELSE NoAsk
@@ -217,7 +225,7 @@ ListingClauses(sl, b) ==
      Cl(WholeRecords(b) /\ n = Len(sl), "harness:device-lists-its-slots")
   \o (IF WholeRecords(b) /\ n = Len(sl)
       THEN Cl(\A k \in 1..n : LET rec == RecordAt(b, k) IN
-                 <<RecMask(rec)>> \o RecStart4(rec) \o RecEnd4(rec) = sl[k].bytes /\ RecId(rec) = k - 1, "harness:device-lists-its-slots")
+                 <<RecMask(rec)>> \o RecStart4(rec) \o RecEnd4(rec) = sl[k].bytes /\ RecId(rec) = sl[k].id, "harness:device-lists-its-slots")
       ELSE <<>>)
 
 ---------------------------------------------------------------------------
@@ -229,9 +237,11 @@ ReadBackClauses(sl, r) ==
   Cl(\A k \in 1..Len(sl) : sl[k].ask.known =>
         \E j \in 1..Len(r.scheds) :
            LET g == r.scheds[j] IN
-             /\ g.id = Decimal(k - 1) /\ g.start = sl[k].ask.start /\ g.end = sl[k].ask.end
+             /\ g.id = Decimal(sl[k].id) /\ g.start = sl[k].ask.start /\ g.end = sl[k].ask.end
              /\ SeqToSet(g.days) = sl[k].ask.days /\ (g.recurring <=> sl[k].ask.days # {}),
      "C10:created-schedule-reads-back")
+  \* ... and a slot emptied by delete_schedule is gone from the listing
+  \o Cl(\A j \in 1..Len(r.scheds) : \E k \in 1..Len(sl) : r.scheds[j].id = Decimal(sl[k].id), "C10:deleted-schedule-still-listed")
 
 Step(e, s, rw, sl, ak, ls) ==
   CASE e.ev = "Open" -> Res(<<>>, "open", Idle(e.api, e.dev, e.key), <<>>, <<>>)
